@@ -641,23 +641,20 @@ where
     /// # Safety
     /// `entity_allocator` must contain entries for the entities stored in the archetype.
     pub(crate) unsafe fn clear(&mut self, entity_allocator: &mut entity::Allocator<R>) {
-        // Clear each column.
-        // SAFETY: `self.components` has the same number of values as there are set bits in
-        // `self.identifier`. Also, each element in `self.components` defines a `Vec<C>` of size
-        // `self.length` for each `C` identified by `self.identifier`.
-        //
-        // The `R` over which `self.identifier` is generic is the same `R` on which this function
-        // is being called.
-        unsafe { R::clear_components(&mut self.components, self.length, self.identifier.iter()) };
+        // The archetype is marked as empty before any component is dropped. If dropping a
+        // component panics, the components that were not yet dropped are leaked instead of being
+        // left in columns that are still considered populated.
+        let length = self.length;
+        self.length = 0;
 
         // Free each entity.
         let mut entity_identifiers = ManuallyDrop::new(
             // SAFETY: `self.entity_identifiers` is guaranteed to contain the raw parts for a valid
-            // `Vec` of size `self.length`.
+            // `Vec` of size `length`.
             unsafe {
                 Vec::from_raw_parts(
                     self.entity_identifiers.0,
-                    self.length,
+                    length,
                     self.entity_identifiers.1,
                 )
             },
@@ -669,7 +666,14 @@ where
         }
         entity_identifiers.clear();
 
-        self.length = 0;
+        // Clear each column.
+        // SAFETY: `self.components` has the same number of values as there are set bits in
+        // `self.identifier`. Also, each element in `self.components` defines a `Vec<C>` of size
+        // `length` for each `C` identified by `self.identifier`.
+        //
+        // The `R` over which `self.identifier` is generic is the same `R` on which this function
+        // is being called.
+        unsafe { R::clear_components(&mut self.components, length, self.identifier.iter()) };
     }
 
     /// Clear the archetype as a detached entity.
@@ -685,11 +689,14 @@ where
         //
         // The `R` over which `self.identifier` is generic is the same `R` on which this function
         // is being called.
-        unsafe { R::clear_components(&mut self.components, self.length, self.identifier.iter()) };
-
+        //
         // Note that we don't need to touch the entity identifiers in this case. Setting the length
-        // to `0` is sufficient because the entity identifiers are `Copy`.
+        // to `0` is sufficient because the entity identifiers are `Copy`. The length is set before
+        // the components are dropped, so that a panic while dropping a component leaks the
+        // remaining components instead of leaving them in columns still considered populated.
+        let length = self.length;
         self.length = 0;
+        unsafe { R::clear_components(&mut self.components, length, self.identifier.iter()) };
     }
 
     /// Decrease the allocated capacity for the component columns and entity identifier column.
